@@ -373,9 +373,37 @@ _SERVER: Any = None
 DAEMON_FLAGS = ["--no-site-packages", "--show-traceback"]
 
 
+_SERVER_DIR: str | None = None
+
+
+def clean_dir(d: str) -> None:
+    for name in os.listdir(d):
+        p = os.path.join(d, name)
+        if os.path.isdir(p) and not os.path.islink(p):
+            shutil.rmtree(p, ignore_errors=True)
+        else:
+            try:
+                os.remove(p)
+            except OSError:
+                pass
+
+
+def ensure_daemon(workdir: str) -> None:
+    """The warmed Server of THIS process must live in `workdir`: the daemon never changes its working directory
+    in real life, and it caches file-system facts relative to it (a probe showed namespace packages that appear in a
+    new cwd are not found), so every worker warms its own Server in its own directory, once."""
+    if _SERVER is None or _SERVER_DIR != workdir:
+        os.makedirs(workdir, exist_ok=True)
+        clean_dir(workdir)
+        r = warm_daemon(workdir)
+        if r["crash"] or r["status"] != 0:
+            raise RuntimeError(f"daemon warm-up failed in worker: {r}")
+
+
 def warm_daemon(warm_dir: str) -> dict[str, Any]:
     """Create the Server and run its first check (empty main.py) in THIS process; forks inherit it."""
-    global _SERVER
+    global _SERVER, _SERVER_DIR
+    _SERVER_DIR = warm_dir
     from mypy.dmypy_server import Server, process_start_options
 
     os.makedirs(warm_dir, exist_ok=True)
@@ -497,10 +525,15 @@ def _daemon_program(workdir: str, files: dict[str, str], original: str, mutants:
 
 
 def run_daemon_program(workdir: str, files: dict[str, str], original: str, mutants: list[str], timeout: float | None = None) -> dict[str, Any]:
-    if _SERVER is None:
-        raise RuntimeError("daemon not warmed")
+    """`workdir` is this worker's daemon directory (see ensure_daemon); it is reset to "empty main.py only" afterwards,
+    which is exactly what this process's Server remembers."""
+    ensure_daemon(workdir)
     timeout = RUN_TIMEOUT if timeout is None else timeout
-    kind, val, _cpu = fork_call(_daemon_program, workdir, files, original, mutants, timeout, timeout=600 + 6 * timeout * max(1, len(mutants)))
+    try:
+        kind, val, _cpu = fork_call(_daemon_program, workdir, files, original, mutants, timeout, timeout=600 + 6 * timeout * max(1, len(mutants)))
+    finally:
+        clean_dir(workdir)
+        write_program(workdir, "", step=0)
     if kind != "ok":
         return {"harness_error": f"daemon program child: {kind}: {str(val)[:800]}"}
     return val
@@ -550,12 +583,13 @@ def confirm_dmypy(workdir: str, files: dict[str, str], original: str, mutant: st
         return r
 
     violations: list[tuple[str, str, dict]] = []
-    write_program(workdir, "", files, step=0)
+    write_program(workdir, "", step=0)
     call("start", "--log-file", os.path.join(workdir, "dmypy-log.txt"), "--", *DAEMON_FLAGS)
     answers = []
     try:
         for step, text in enumerate(["", original, mutant, original]):
-            write_program(workdir, text, step=step)
+            # like the in-process lane: the extra files appear together with the original program
+            write_program(workdir, text, files if step == 1 else None, step=step)
             r = call("check", "main.py")
             if r.get("timeout"):
                 violations.append(("hang|daemon", f"real dmypy gave no answer within {timeout}s", {}))
